@@ -676,12 +676,39 @@ fn auto_routines(ctx: &mut Ctx, p: &Prim, spdc: &SPDC) {
   ctx.k(
     "cmpa_opt_period",
     &st,
-    &match r {
+    &match &r {
       Some(Ok(v)) => fl(v.value_unsafe),
       Some(Err(_)) => "ERR".into(),
       None => "PANIC".into(),
     },
   );
+  // the same search with the crystal length next to the period found (the upper bound of the search and
+  // the "result sits on the bound => Err" rule): L = |period| * (1 + d)
+  if let Some(Ok(v)) = &r {
+    let per = v.value_unsafe.abs();
+    if per.is_finite() && per > 0.0 && ctx.rng.below(2) == 0 {
+      let d = *ctx.rng.pick(&[1e-12, 1e-10, 5e-10, 2e-9, 1e-8, 1e-6, 1e-4, 1e-3, 5e-3, 2e-2, 0.1, -1e-10, -1e-6, -1e-3, -0.05]);
+      let mut p2 = p.clone();
+      p2.l = per * (1.0 + d);
+      if let Some(s3) = p2.build() {
+        let r2 = guard(move || spdcalc::optimum_poling_period(&s3.signal, &s3.pump, &s3.crystal_setup));
+        ctx.count(match &r2 {
+          Some(Ok(_)) => "compose/opt_period_at_bound/ok",
+          Some(Err(_)) => "compose/opt_period_at_bound/err",
+          None => "compose/opt_period_at_bound/panic",
+        });
+        ctx.k(
+          "cmpa_opt_period",
+          &p2.tokens(),
+          &match r2 {
+            Some(Ok(v)) => fl(v.value_unsafe),
+            Some(Err(_)) => "ERR".into(),
+            None => "PANIC".into(),
+          },
+        );
+      }
+    }
+  }
   // optimum crystal angle
   let s2 = spdc.clone();
   let r = guard(move || s2.crystal_setup.optimum_theta(&s2.signal, &s2.pump).value_unsafe);
